@@ -169,7 +169,7 @@ def prep_spec(run, sub="core"):
 
 
 # ----------------------------------------------------------------------------------------- E1 core engine
-CODE_KF = ["F7", "F9", "F15", "F18"]   # deviations of the code from the intended design that the spec can reproduce
+CODE_KF = ["F7", "F18"]   # deviations of the code from the intended design that the spec can reproduce
 
 def tla_set(xs):
     return "{" + ", ".join('"%s"' % x if isinstance(x, str) else str(x) for x in xs) + "}"
@@ -197,12 +197,14 @@ SCENARIOS = {
                   named=["AR-PACKAGE", "SYSTEM-SIGNAL", "I-SIGNAL"], names=["a", "s", "b"], pos=[0, 1], wild=True),
     "refs": dict(fix="F2", depth=2, tdepth=3, ops=["Rename", "Move", "Remove", "SetRef", "SetText", "RemoveText", "CreateNamed"], elems=[],
                  named=["SYSTEM-SIGNAL"], names=["s", "s1", "b", "p"], pos=[], wild=False),
+    "files": dict(fix="F3", depth=2, tdepth=3, ops=["CreateFile", "RemoveFile", "AddToFile", "RemoveFromFile", "Remove", "CreateNamed", "CreateSub", "Move", "Copy"],
+                  elems=["ELEMENTS"], named=["AR-PACKAGE", "SYSTEM-SIGNAL"], names=["a", "d"], pos=[], wild=False, files=["f1", "f3"], vers=["V50"], ser=True),
 }
 
 
 def e1_run(tier):
     """run the core engine once for this tree/tier/seed; results are cached by content hash"""
-    key = tree_hash("E1|%s|%d" % (tier, seed()))
+    key = tree_hash("E1|%s|%d|%s" % (tier, seed(), os.environ.get("VH_ONLY", "")))
     cache = os.path.join(WORK, "cache", "E1-%s.json" % key)
     if os.path.exists(cache):
         log("[E1] reusing engine run %s (same tree, spec, harness, seed, tier)" % key)
@@ -217,7 +219,10 @@ def e1_run(tier):
     result = {"tier": tier, "seed": seed(), "scenarios": {}, "verdicts": [], "states": 0, "transitions": 0, "replayed": 0,
               "matched": 0, "mismatched": 0, "validated_steps": 0, "drift": 0, "unmodelled": 0, "samples": [], "ops": {},
               "design_states": 0, "design_transitions": 0, "design_findings": [], "tool_errors": []}
+    only = os.environ.get("VH_ONLY")
     for name, sc in SCENARIOS.items():
+        if only and name not in only.split(","):
+            continue
         depth = sc["tdepth"] if tier == "thorough" else sc["depth"]
         sdir = os.path.join(run, name)
         os.makedirs(sdir)
@@ -279,11 +284,11 @@ def e1_run(tier):
                 if len(wk) > (400 if tier == "quick" else 4000):
                     break
                 f.write(json.dumps({"fix": g["fix"] or [], "h": h}) + "\n")
-        sh([VH, "histories", "--in", wfile, "--out", os.path.join(sdir, "witness.ndjson"), "--models", "2", "--names", ",".join(sc["names"])], timeout=3600)
+        sh([VH, "histories", "--in", wfile, "--out", os.path.join(sdir, "witness.ndjson"), "--models", "2", "--names", ",".join(sc["names"])] + (["--ser"] if sc.get("ser") else []), timeout=3600)
         # (3) replay on the real library
         json.dump(g["fix"] or [], open(os.path.join(sdir, "fix.json"), "w"))
         r = sh([VH, "replay", "--in", trans, "--fix", os.path.join(sdir, "fix.json"), "--out", sdir, "--models", "2", "--seed", str(seed()),
-                "--sample", "300" if tier == "quick" else "3000", "--names", ",".join(sc["names"])], timeout=7200)
+                "--sample", "300" if tier == "quick" else "3000", "--names", ",".join(sc["names"])] + (["--ser"] if sc.get("ser") else []), timeout=7200)
         rs = json.loads(r.stdout.strip().splitlines()[-1])
         result["replayed"] += rs["transitions"]
         result["matched"] += rs["matched"]
